@@ -489,6 +489,9 @@ pub fn eval_unit_name(
                     .into_iter()
                     .map(|(k, v)| (k, -v))
                     .collect::<BTreeMap<_, _>>();
+                if right == Numeric::zero() || right == Numeric::Float(0.0) {
+                    return Err(QueryError::generic("Division by zero".to_string()));
+                }
                 Ok((
                     crate::algorithms::btree_merge(&left_unit, &right_unit, |a, b| {
                         if a + b != 0 {
@@ -511,22 +514,39 @@ pub fn eval_unit_name(
                         "Exponents must be dimensionless".to_string(),
                     ));
                 }
-                let right = right.value.to_f64();
                 let (left_unit, left_value) = eval_unit_name(ctx, &binop.left)?;
-                Ok((
-                    left_unit
-                        .into_iter()
-                        .filter_map(|(k, v)| {
-                            let v = v * right as isize;
-                            if v != 0 {
-                                Some((k, v))
-                            } else {
-                                None
-                            }
-                        })
-                        .collect::<BTreeMap<_, _>>(),
-                    left_value.pow(right as i32),
-                ))
+                // The constant and the unit names have to be raised to
+                // the same power as the value of the target itself,
+                // which is not necessarily a (small) integer.
+                let value = Number::new(left_value)
+                    .pow(right)
+                    .map_err(QueryError::generic)?
+                    .value;
+                if let Numeric::Float(f) = value {
+                    if !f.is_finite() {
+                        return Err(QueryError::generic(
+                            "Exponentiation did not result in a number".to_string(),
+                        ));
+                    }
+                }
+                let (num, den) = right.value.to_rational();
+                let (num, den) = match (num.as_int(), den.as_int()) {
+                    (Some(num), Some(den)) => (num as i128, den as i128),
+                    _ => return Err(QueryError::generic("Exponent is too large".to_string())),
+                };
+                let mut unit = BTreeMap::new();
+                for (k, v) in left_unit {
+                    let v = v as i128 * num;
+                    if v % den != 0 || (v / den).abs() > i32::MAX as i128 {
+                        return Err(QueryError::generic(
+                            "Exponentiation must result in integer dimensions".to_string(),
+                        ));
+                    }
+                    if v != 0 {
+                        unit.insert(k, (v / den) as isize);
+                    }
+                }
+                Ok((unit, value))
             }
             BinOpType::ShiftL | BinOpType::ShiftR => Err(QueryError::generic(
                 "Shifts are not allowed in the right hand side of conversions".to_string(),
